@@ -121,7 +121,12 @@ func build(c *lp.Ctx, cs *Case) bool {
 // distinct i32 values), on the implementation only: every key of the first and last 40 and a stride of the rest is
 // found with its own value.  A code path that exists only for big inputs (parallel encoding, a second-level index)
 // is otherwise never run by any check.
-func bigDirect(c *lp.Ctx) {
+func bigDirect(c *lp.Ctx) { bigDirectOpt(c, false) }
+
+// bigDirectComplete: the same in Complete mode (C03: Get finds exactly the retained keys, also of big key sets).
+func bigDirectComplete(c *lp.Ctx) { bigDirectOpt(c, true) }
+
+func bigDirectOpt(c *lp.Ctx, complete bool) {
 	for _, n := range []int{1<<18 + 5, 1<<20 + 3}[:c.Pick(1, 2)] {
 		keys := make([]string, n)
 		vals := make([]int32, n)
@@ -135,9 +140,21 @@ func bigDirect(c *lp.Ctx) {
 					bad = fmt.Sprintf("panic: %v", r)
 				}
 			}()
-			st, err := slim.NewSlimTrie(encode.I32{}, keys, vals)
+			var opts []slim.Opt
+			if complete {
+				opts = []slim.Opt{{Complete: slim.Bool(true)}}
+			}
+			st, err := slim.NewSlimTrie(encode.I32{}, keys, vals, opts...)
 			if err != nil {
 				return "NewSlimTrie: " + err.Error()
+			}
+			if complete {
+				// absent strings next to indexed keys are not found
+				for _, q := range []string{keys[0] + "x", keys[n-1] + "\x00", "key-", keys[n/2][:len(keys[n/2])-1]} {
+					if v, ok := st.Get(q); ok {
+						return fmt.Sprintf("Get(%q) = %v, true; the string is not a key", q, v)
+					}
+				}
 			}
 			for i := 0; i < n; i++ {
 				if i >= 40 && i < n-40 && i%997 != 0 {
